@@ -18,7 +18,8 @@ SETTERS = {
 }
 for fn, (void, repl) in SETTERS.items():
     OBLS.append(Obl('C03.%s.atomic_size' % fn.replace('agg_', 'url_aggregator.'), ['C03', 'C09', 'C19', 'C02'], 'B(6)', 'c03/setter.c', roots=[fn], replace=repl, specs={c: 'skel/%s.spec' % c for c in repl},
-                    bufn=6, unwind=10, defines=['STR_CAP=6', 'BUF_START=1', 'SETTER=' + fn] + (['SETTER_VOID=1'] if void else []), includes=INC,
+                    bufn=6, unwind=10, defines=['STR_CAP=6', 'BUF_START=1', 'SETTER=' + fn] + (['SETTER_VOID=1'] if void else []) + (['SETTER_CRED=1'] if fn in ('agg_set_username', 'agg_set_password', 'agg_set_port') else []), includes=INC,
+                    enums=[('ada::scheme::type', 'FILE')],
                     globals=[('omitted', 'const unsigned int')], solver='cadical', timeout=900, object_bits=11, bound='input <= 6 bytes, string capacity 6; callee effects arbitrary',
                     note='setter skeleton with abstract (arbitrary-effect) editors: failure restores the object, the length limit holds at every exit, is_valid kept; '
                          'input <= 6 bytes only drives the control flow (the argument about callees is unbounded)'))
@@ -36,3 +37,8 @@ OBLS.append(Obl('C03.parse_host.success_valid', ['C03', 'C10', 'C02'], 'B(6)', '
                             'unicode_to_ascii': 'skel/unicode_to_ascii.spec'}),
                 bufn=6, unwind=10, defines=['STR_CAP=8', 'BUF_START=1'], includes=INC, globals=[('omitted', 'const unsigned int')], solver='cadical', timeout=900,
                 object_bits=11, bound='host <= 6 bytes', note='parse_host returning true leaves the URL valid (callee host parsers: success keeps is_valid)'))
+OBLS.append(Obl('C03.parse_scheme_with_colon<false>.always_succeeds', ['C03', 'C09', 'C02'], 'B(6)', 'auto', roots=['agg_parse_scheme_with_colon_0'],
+                enforce='agg_parse_scheme_with_colon_0', replace=['agg_set_scheme', 'agg_set_scheme_from_view_with_colon'],
+                specs=dict({c: 'skel/%s.spec' % c for c in ['agg_parse_scheme_with_colon_0', 'agg_set_scheme', 'agg_set_scheme_from_view_with_colon']}),
+                bufn=6, unwind=10, defines=['STR_CAP=6', 'BUF_START=1'], includes=INC, globals=[('omitted', 'const unsigned int')], solver='cadical', timeout=900,
+                object_bits=11, bound='scheme <= 6 bytes', note='the parser-time scheme setter always returns true and does not touch is_valid / has_opaque_path (skeleton contract used by the parser obligations)'))
